@@ -90,6 +90,9 @@ type World struct {
 	t0       time.Time
 	logger   *memLog
 	progress *int64
+	wmu      sync.Mutex
+	watch    []*watcher
+	nwatch   int32
 
 	mu      sync.Mutex
 	results map[string]*result
@@ -233,13 +236,13 @@ func Main(t *testing.T) {
 				idle = 0
 				last = cur
 			}
-			if idle >= 25 {
+			if idle >= 15 {
 				buf := make([]byte, 1<<20)
 				n := runtime.Stack(buf, true)
 				o := w.outcome()
 				o.Verdict = "stall"
 				o.Class = "stall"
-				o.Detail = "no simulator progress for 25s of wall time"
+				o.Detail = "no simulator progress for 15s of wall time"
 				o.Stack = string(buf[:n])
 				finish(o)
 			}
@@ -271,7 +274,7 @@ func (w *World) outcome() *Outcome {
 		o.Probes[k] = v
 	}
 	for k, v := range w.ufired {
-		if strings.HasPrefix(k, "yield-") {
+		if strings.HasPrefix(k, "yield-") || k == "client-cancel" {
 			o.Fired[k] += v
 		} else {
 			o.Fired["user-"+k] += v
@@ -347,7 +350,7 @@ func (w *World) run() *Outcome {
 			Procs: cfg.Procs, Keepalive: ka, DelaySeed: cfg.DelaySeed, DelayProfile: cfg.DelayProfile,
 			MaxMachines: cfg.MaxMachines, BootDelay: parseDur(cfg.BootDelay, 0), Faults: c.Faults,
 		})
-		w.sys.OnEvent = func(simnet.Event) { atomic.AddInt64(w.progress, 1) }
+		w.sys.OnEvent = func(simnet.Event) { w.tick() }
 		opts = append(opts, exec.Bigmachine(w.sys))
 	default:
 		panic("world: bad executor " + cfg.Executor)
@@ -553,7 +556,40 @@ func (w *World) stepRun(ctx context.Context, path string, st *Step) {
 		}
 		w.cap.mu.Unlock()
 	}
+	if st.CancelAfter > 0 || st.CancelAtEvent > 0 {
+		var cancel context.CancelFunc
+		ctx, cancel = context.WithCancel(ctx)
+		fire := func() {
+			w.mu.Lock()
+			w.ufired["client-cancel"]++
+			w.mu.Unlock()
+			cancel()
+		}
+		if st.CancelAfter > 0 {
+			tm := time.AfterFunc(time.Duration(st.CancelAfter), fire)
+			defer tm.Stop()
+		}
+		if st.CancelAtEvent > 0 {
+			wa := w.addWatcher(st.CancelAtEvent, fire)
+			defer func() {
+				w.wmu.Lock()
+				wa.left = 0
+				w.wmu.Unlock()
+			}()
+		}
+		defer cancel()
+	}
 	res, err := w.sess.Run(ctx, fn, args...)
+	if err != nil && (st.CancelAfter > 0 || st.CancelAtEvent > 0) && ctx.Err() != nil {
+		// The client gave up; whatever the run reports is acceptable.
+		sr.Err = "cancelled by the client: " + err.Error()
+		r.err = err
+		w.mu.Lock()
+		w.results[st.ID] = r
+		w.mu.Unlock()
+		w.addStep(sr)
+		return
+	}
 	r.err = err
 	if err == nil {
 		r.res = res
@@ -616,6 +652,18 @@ func (w *World) stepRunArgs(ctx context.Context, path string, st *Step) {
 	case "bad":
 		fn = interp.ArgFuncBad
 		args = interp.BadArgs(a.NShard, a.Bad)
+	case "pass":
+		// A Func that returns its Result argument as is (it contributes no
+		// tasks of its own), with a possibly unencodable second argument.
+		fn = interp.ArgFuncPass
+		r := w.getResult(st.Args[0])
+		if r == nil || r.res == nil {
+			w.addStep(StepResult{Path: path, Op: "runargs", ID: st.ID, Err: "skipped: argument result unavailable"})
+			return
+		}
+		args = interp.PassArgs(r.res, a.Bad)
+		a = &interp.ArgSpec{NShard: r.val.NShard}
+		want = r.val.Rows[0][1].(string)
 	default:
 		fn = interp.ArgFunc
 		args = a.Args()
@@ -692,13 +740,30 @@ func (w *World) checkNoRepeat() {
 			return
 		}
 	}
+	if len(w.c.Faults) == 0 {
+		// Nor is a task handed to the executor twice (an attempt that fails
+		// before anything is sent, e.g. while encoding the invocation, and is
+		// then treated as a lost task and resubmitted, is a retry too).
+		w.mu.Lock()
+		var worst string
+		for k, n := range w.uocc {
+			if strings.HasPrefix(k, "y|bm.run|") && n > 1 && (worst == "" || k < worst) {
+				worst = k
+			}
+		}
+		n := w.uocc[worst]
+		w.mu.Unlock()
+		if worst != "" {
+			w.violate("repeated-attempt", "task %s was submitted to the executor %d times in a run without injected faults", strings.TrimPrefix(worst, "y|bm.run|"), n)
+		}
+	}
 }
 
 func (w *World) checkStepExpect(path string, st *Step, err error) {
 	if st.MustSucceed && err != nil {
 		w.violate("unexpected-error", "step %s (%s %s) failed: %v", path, st.Op, st.ID+st.Of, err)
 	}
-	if st.MustFail && err == nil && w.userFaultsFired() == 0 {
+	if st.MustFail && err == nil && len(w.c.UFaults) > 0 && w.userFaultsFired() == 0 {
 		// The planned user fault never fired: the case is vacuous, not a violation.
 		w.probe("vacuous-mustfail")
 	} else if st.MustFail && err == nil {
@@ -797,16 +862,54 @@ func (w *World) userFaultsFired() int {
 	defer w.mu.Unlock()
 	n := 0
 	for k, v := range w.ufired {
-		if !strings.HasPrefix(k, "yield-") {
+		if !strings.HasPrefix(k, "yield-") && k != "client-cancel" {
 			n += v
 		}
 	}
 	return n
 }
 
+// watcher fires f after left more simulator events (seam events, yield points,
+// user-function calls): a trigger that does not depend on simulated time.
+type watcher struct {
+	left int
+	f    func()
+}
+
+// tick counts one simulator event and fires the watchers that are due.
+func (w *World) tick() {
+	atomic.AddInt64(w.progress, 1)
+	if atomic.LoadInt32(&w.nwatch) == 0 {
+		return
+	}
+	var fire []func()
+	w.wmu.Lock()
+	for _, wa := range w.watch {
+		if wa.left > 0 {
+			wa.left--
+			if wa.left == 0 {
+				fire = append(fire, wa.f)
+			}
+		}
+	}
+	w.wmu.Unlock()
+	for _, f := range fire {
+		f()
+	}
+}
+
+func (w *World) addWatcher(n int, f func()) *watcher {
+	wa := &watcher{left: n, f: f}
+	w.wmu.Lock()
+	w.watch = append(w.watch, wa)
+	w.wmu.Unlock()
+	atomic.AddInt32(&w.nwatch, 1)
+	return wa
+}
+
 // userPoint is called from user functions.
 func (w *World) userPoint(ctx context.Context, site, kind, key string) error {
-	atomic.AddInt64(w.progress, 1)
+	w.tick()
 	defer w.enterUser(site)()
 	name := "u|" + site + "|" + key
 	w.mu.Lock()
@@ -867,7 +970,7 @@ func (w *World) userPoint(ctx context.Context, site, kind, key string) error {
 
 // yield is called at the simhook points inside bigslice (never under a lock).
 func (w *World) yield(point, key string) {
-	atomic.AddInt64(w.progress, 1)
+	w.tick()
 	name := "y|" + point + "|" + key
 	w.mu.Lock()
 	w.uocc[name]++
